@@ -16,7 +16,9 @@ type CSVFormatter struct {
 	Writer io.Writer
 }
 
-func (f *CSVFormatter) Write(result interface{}) error {
+func (f *CSVFormatter) Write(result interface{}) (err error) {
+	defer recoverWriteError(&err)
+
 	columns, err := f.Header(result)
 	if err != nil {
 		return err
